@@ -355,6 +355,16 @@ package interpreter
 //@   nofail
 //@   env MemoryMeteringError ComputationMeteringError
 //@   ensures inty(result) && kind(result) == rfield(0) && mval(result) == ite(name == "start", rfield(1), ite(name == "end", rfield(2), rfield(3)))
+// The integer kind a primitive static type denotes (0: none), as a function of the constant.
+//@ typeattr PrimitiveStaticType: ikind=ite(self == PrimitiveStaticTypeInt, IntValue, ite(self == PrimitiveStaticTypeInt8, Int8Value, ite(self == PrimitiveStaticTypeInt16, Int16Value, ite(self == PrimitiveStaticTypeInt32, Int32Value, ite(self == PrimitiveStaticTypeInt64, Int64Value, ite(self == PrimitiveStaticTypeInt128, Int128Value, ite(self == PrimitiveStaticTypeInt256, Int256Value, ite(self == PrimitiveStaticTypeUInt, UIntValue, ite(self == PrimitiveStaticTypeUInt8, UInt8Value, ite(self == PrimitiveStaticTypeUInt16, UInt16Value, ite(self == PrimitiveStaticTypeUInt32, UInt32Value, ite(self == PrimitiveStaticTypeUInt64, UInt64Value, ite(self == PrimitiveStaticTypeUInt128, UInt128Value, ite(self == PrimitiveStaticTypeUInt256, UInt256Value, ite(self == PrimitiveStaticTypeWord8, Word8Value, ite(self == PrimitiveStaticTypeWord16, Word16Value, ite(self == PrimitiveStaticTypeWord32, Word32Value, ite(self == PrimitiveStaticTypeWord64, Word64Value, ite(self == PrimitiveStaticTypeWord128, Word128Value, ite(self == PrimitiveStaticTypeWord256, Word256Value, 0))))))))))))))))))))
+// The constructor behind the cache of small integer values: a 20-way switch over the static type.
+//@ func (*smallIntegerValueCache).new
+//@   props C21
+//@   requires kind(staticType) == PrimitiveStaticType && ghostof(staticType, "ikind") != 0
+//@   nofail
+//@   ensures[C21] kind(result) == ghostof(staticType, "ikind")
+//@   ensures[C21] inty(result)
+//@   ensures[C21] mval(result) == ite(num(value) >= 0 || ghostof(result, "haslo") == 0 || ghostof(result, "lo") < 0, num(value), num(value) + ite(ghostof(result, "hashi") != 0 && ghostof(result, "hi") < pow2(64), ghostof(result, "hi") + 1, pow2(64)))
 //@ func GetSmallIntegerValue
 //@   assumed
 //@   nofail
@@ -382,11 +392,16 @@ package interpreter
 //@   ensures[C21] iff(result, ite(rfield(1) == rfield(2), mval(needleValue) == rfield(1), rmember(mval(needleValue), rfield(1), rfield(2), rfield(3))))
 
 // The static type of an integer value denotes that value's kind.
+// Not assumed for the integer kinds: every IntegerValue implementor's StaticType is verified against this text
+// (refine, expandfor=IntegerValue); ikind of a PrimitiveStaticType is defined from the constant (typeattr above).
 //@ iface Value.StaticType
-//@   assumed
+//@   option expand=true
+//@   option refine=true
+//@   option expandfor=IntegerValue
 //@   nofail
 //@   env MemoryMeteringError
-//@   ensures ghostof(result, "ikind") == kind(self)
+//@   modifies ghost("metered")
+//@   ensures[C21] ghostof(result, "ikind") == kind(self)
 // A new iterator starts at the range's start and satisfies the invariant that Next requires and keeps.
 //@ func NewInclusiveRangeIterator
 //@   modifies ghost("metered")
